@@ -68,7 +68,7 @@ def _closure_violations_(env, dst, trees):
 
 
 def h_transfer(s0: bool, s1: bool, s2: bool, p0: bool, p1: bool, p2: bool, pd0: bool, pd1: bool, pd2: bool,
-               x0: bool, x1: bool, x2: bool, xd0: bool, xd1: bool, xd2: bool, c0: bool, c1: bool, c2: bool, ab: int) -> bool:
+               x0: bool, x1: bool, x2: bool, xd0: bool, xd1: bool, xd2: bool, c0: bool, c1: bool, c2: bool, ab: int, ek: bool = False) -> bool:
     """
     pre: 0 <= ab <= 6
     post: _
@@ -125,6 +125,16 @@ def h_transfer(s0: bool, s1: bool, s2: bool, p0: bool, p1: bool, p2: bool, pd0: 
                 return decided[oid]
 
         faults.fail = LazyFail()
+        kinds = {}
+
+        def exc_kind(tp):
+            # what kind of error the failing upload reports is symbolic too (decided once per run)
+            if "k" not in kinds:
+                kinds["k"] = B(ek)
+            import errno as _e
+            return FileNotFoundError(_e.ENOENT, "injected: source vanished", tp) if kinds["k"] else OSError(_e.EIO, "injected upload failure", tp)
+
+        faults.exc_kind = exc_kind
         faults.abort_at = abort_at if abort_at >= 0 else None
         closure_log = []
 
@@ -153,6 +163,7 @@ def h_transfer(s0: bool, s1: bool, s2: bool, p0: bool, p1: bool, p2: bool, pd0: 
         except Exception as e:  # noqa: BLE001
             exc = e
         faults.abort_at = None
+        faults.exc_kind = None
         bad, have = _closure_violations(env, dst, [t for _, t in uniq.values()])
         src_names = {"".join(k.split("/")) for k, v in src_before.items() if v[0] == "file"}
         new = {o for o in expanded if o in src_names and o not in dst_before}
